@@ -1,12 +1,14 @@
 import Gomacro.Drv.C19
 import Gomacro.Drv.C17
+import Gomacro.Drv.C20
 /-! JSON-lines driver: one request object per line in, one reply per line out.
 Unknown ops are `bad-op`, never defaulted.  Core-only imports (links as an executable). -/
 open Lean Gomacro.Drv
 
 def handlers : List (String × Handler) := [
   ("c19.write", c19Write),
-  ("c17.root", c17Root)
+  ("c17.root", c17Root),
+  ("c20.run", c20Run)
 ]
 
 def handleLine (line : String) : String :=
